@@ -35,6 +35,11 @@ impl DynamicTypeItem {
         self.0
     }
     
+    /* The calculation code is tokenized again. An atom keeps the number independent from the configured decimal and thousand separators */
+    fn number_atom(number: f64) -> String {
+        alloc::format!("[NUMBER:{}]", number)
+    }
+
     fn  calculate_unit(config: &SmartCalcConfig, number: f64, source_type: Rc<DynamicType>, target_type: Rc<DynamicType>, group: &BTreeMap<usize, Rc<DynamicType>>) -> Option<f64> {
         
         if source_type.index == target_type.index {
@@ -58,7 +63,7 @@ impl DynamicTypeItem {
                 false => &next_item.downgrade_code[..]
             };
             
-            number = match SmartCalc::basic_execute(code.replace("{value}", &number.to_string()), config) {
+            number = match SmartCalc::basic_execute(code.replace("{value}", &Self::number_atom(number)), config) {
                 Ok(number) => number,
                 Err(_) => return None
             };
@@ -118,7 +123,7 @@ impl DynamicTypeItem {
             false => &type_conversion.to_target_calculation[..]
         };
 
-        let number = match SmartCalc::basic_execute(code.replace("{value}", &number.to_string()), config) {
+        let number = match SmartCalc::basic_execute(code.replace("{value}", &Self::number_atom(number)), config) {
             Ok(number) => number,
             Err(_) => return None
         };
